@@ -12,7 +12,7 @@ use happylock::{Mutex, RwLock, ThreadKey};
 const MAXID: usize = 32;
 #[allow(clippy::declare_interior_mutable_const)]
 const Z: AtomicU32 = AtomicU32::new(0);
-static DROPS: [AtomicU32; MAXID] = [Z; MAXID];
+pub static DROPS: [AtomicU32; MAXID] = [Z; MAXID];
 
 #[derive(Debug)]
 pub struct DC {
